@@ -1,4 +1,4 @@
-import RtenVerif.Lemmas.PartialRunCompose
+import RtenVerif.Lemmas.PartialRunTotal
 import RtenVerif.Generated.NondetOps
 
 /-!
@@ -13,6 +13,10 @@ constants.*
 Theorems over `RtenVerif.Model.PartialRun` (model of `Graph::partial_run`,
 `Planner::prune_plan`, `Graph::run`/`run_plan`), the planner model of C03 and the graph IR.
 
+* `c04_leaf_values`, `c04_leaf_values_run` (T1) every returned `(id, value)` is the value of
+  `id` in the naive full evaluation / in any successful `run` with any completion of the inputs.
+* `c04_compose`, `c04_compose_total` (T2) `partial_run` returns, the composed run succeeds and
+  returns what the single run returns.
 * `c04_no_nondeterministic_evaluated` (T3) every operator `partial_run` executes is a
   deterministic operator of the plan.
 * `c04_leaves_computable` (T4a) every returned id is computable from the supplied ids and
@@ -95,8 +99,7 @@ theorem computable_source_det {g : Graph} {S : List Nat} {v : Nat} (hu : UniqueP
   cases h with
   | supplied h => exact absurd h hs
   | const h => rw [h] at hc; cases hc
-  | op hop hdet hdeps hv =>
-    rename_i p op
+  | @op _ p op hop hdet _ hdeps hv =>
     refine ⟨p, op, ?_, hdet, hdeps⟩
     have := hu p op v hop hv
     simp [getSource, this, hop]
@@ -112,6 +115,31 @@ theorem c04_pruned_inputs_returned {g : Graph} {pre post ins outs : List Nat} {b
     d ∈ (prunePlan g (pre ++ b :: post) ins outs).2 :=
   pruned_input_returned hop hp hd hr hc
 
+/-- **C04.T4b** Every dependency of a pruned operator of the plan that is computable from the
+supplied values (and is not a constant) is among the returned ids — so the caller holds
+everything the pruned part of the plan needs from the evaluated part. -/
+theorem c04_pruned_inputs_returned_computable {g : Graph} {ins outs plan kept leaves : List Nat}
+    {b d : Nat} {op : OpNode} (hu : UniqueProducer g)
+    (hc : createPlan g ins outs partialOpts = .ok plan)
+    (h : partialPlan g ins outs = .ok (kept, leaves))
+    (hb : b ∈ plan) (hnk : b ∉ kept) (hop : getOp g b = some op) (hd : d ∈ opDeps g op)
+    (hcomp : Computable g ins d) (hconst : isConstant g d = false) : d ∈ leaves := by
+  obtain ⟨plan', hc', hk, hl⟩ := partialPlan_ok h
+  rw [hc] at hc'
+  injection hc' with hc'
+  subst hc'
+  subst hk; subst hl
+  have hok : PlanOK g true ins outs plan := by
+    have := c03_plan_ok (argsOK_of_createPlan_ok hc) hc
+    simpa [partialOpts, resolvedNew] using this
+  obtain ⟨pre, post, hsplit⟩ := List.append_of_mem hb
+  have hp : prunedAt g (pruneFold g pre ins).resolved op = true := by
+    cases hp : prunedAt g (pruneFold g pre ins).resolved op with
+    | true => rfl
+    | false => exact absurd (hsplit ▸ (kept_at_step (post := post) hop hp).1) hnk
+  rw [hsplit]
+  exact pruned_input_returned hop hp hd (computable_resolved_at hu hok hsplit hop hd hcomp) hconst
+
 /-- Non-vacuity of T4: value 3 = op5(0) is computable from the supplied 0; operator 6 needs
 3 and the missing input 1, so it is pruned and 3 is returned (and nothing depending on 1). -/
 def chainGraph : Graph :=
@@ -123,7 +151,7 @@ example : partialPlan chainGraph [0] [4] = .ok ([5], [3]) := by decide
 example : Computable chainGraph [0] 3 := by
   have hop : getOp chainGraph 5 = some { inputs := [some 0, some 2], outputs := [some 3] } := by
     decide
-  refine .op hop rfl ?_ (by decide)
+  refine .op hop rfl (by decide) ?_ (by decide)
   intro d hd
   have h : opDeps chainGraph { inputs := [some 0, some 2], outputs := [some 3] } = [0, 2] := by
     decide
@@ -164,27 +192,58 @@ theorem c04_leaf_values_run {g : Graph} {sem : Sem Ω V} {cv : Nat → V} {S res
   rw [heq] at h2
   exact h2.unique g sem ω' cv _ h1
 
-/-! ## T2 — composition
+/-! ## T2 — composition -/
 
-Full statement: `run (partial_run S outs ++ rest) outs = run (S ++ rest) outs` whenever the
-latter succeeds.  Proved below: the *values* agree whenever both runs finish
-(`c04_compose_partial`).  Not proved: that the composed run finishes (no planning error, no
-missing value, no operator error) whenever the single run does — this is compared with the real
-code on every generated case (`final=ok` in the line protocol and the harness's `compose`
-oracle).  Before the `prune_plan` fix the full statement was false (`c04_orig_compose_false`). -/
+/-- **C04.T2** `run (partial_run S outs ++ rest) outs = run (S ++ rest) outs` whenever the
+latter succeeds: the composed run *succeeds* (its request is well-formed — in particular the
+returned ids are distinct and disjoint from the remaining inputs —, planning finds no cycle and
+no missing value, the executor finds every dependency, no operator fails) and returns the same
+list of outputs.  For every graph with unique producers whose operator outputs are value nodes,
+every supplied subset `S` (including empty and all inputs), every request `outs` (outputs that
+are inputs, constants, intermediate values), every oracle `ω` — the *same* state of the random
+generators in both runs: a non-deterministic operator is executed by the single run and by the
+composed run, never by `partial_run` (T3); a deterministic one by `partial_run` or the composed
+run.  Before the `prune_plan` fix this was false (`c04_orig_compose_false`). -/
+theorem c04_compose {g : Graph} {sem : Sem Ω V} {cv : Nat → V} {S rest : List (Nat × V)}
+    (hs : Setup g S rest) (hov : OutputsAreValues g) (hdet : DetSem g sem)
+    {ω : Ω} {outs : List Nat} {leaves : List (Nat × V)} {valsF : List V}
+    (hp : partialRun g sem ω cv S [] outs = .ok leaves)
+    (hfull : run g sem ω cv (S ++ rest) [] outs = .ok valsF) :
+    run g sem ω cv (leaves ++ rest) [] outs = .ok valsF :=
+  compose_full hs hov hdet hp hfull
 
-/-- **C04.T2 (values)** if `run` with all inputs and `run` with the returned leaves plus the
-remaining inputs both finish, they return the same list of outputs — for every graph with
-unique producers, every request and every oracle (the *same* oracle in both runs: a
-non-deterministic operator is executed by both, a deterministic one by exactly one of
-`partial_run` and the composed run). -/
-theorem c04_compose_partial {g : Graph} {sem : Sem Ω V} {cv : Nat → V} {S rest : List (Nat × V)}
+/-- **C04.T2 at full strength** (no assumption that `partial_run` returned): whenever the single
+`run` with all inputs succeeds, `partial_run` on the subset `S` returns some leaves — its
+planning finds no cycle, every kept operator finds its dependencies and succeeds, the leaves can
+be collected — and `run` on those leaves plus the remaining inputs succeeds with the same
+outputs. -/
+theorem c04_compose_total {g : Graph} {sem : Sem Ω V} {cv : Nat → V} {S rest : List (Nat × V)}
+    (hs : Setup g S rest) (hov : OutputsAreValues g) (hdet : DetSem g sem)
+    {ω : Ω} {outs : List Nat} {valsF : List V}
+    (hfull : run g sem ω cv (S ++ rest) [] outs = .ok valsF) :
+    ∃ leaves, partialRun g sem ω cv S [] outs = .ok leaves ∧
+      run g sem ω cv (leaves ++ rest) [] outs = .ok valsF :=
+  compose_total hs hov hdet hfull
+
+/-- **C04.T2 (values only)** without the assumption that operator outputs are value nodes: if
+both runs finish they agree. -/
+theorem c04_compose_values {g : Graph} {sem : Sem Ω V} {cv : Nat → V} {S rest : List (Nat × V)}
     (hs : Setup g S rest) (hdet : DetSem g sem) {ω : Ω} {outs : List Nat}
     {leaves : List (Nat × V)} {valsF valsP : List V}
     (hp : partialRun g sem ω cv S [] outs = .ok leaves)
     (hfull : run g sem ω cv (S ++ rest) [] outs = .ok valsF)
     (hfin : run g sem ω cv (leaves ++ rest) [] outs = .ok valsP) : valsF = valsP :=
   compose_values hs hdet hp hfull hfin
+
+/-- **Completeness of `run`** (used for T2, of independent interest): on a well-formed request
+for which the naive evaluation assigns a value to every requested output, `run` succeeds — no
+planning error, no panic, no operator error. -/
+theorem c04_run_complete {g : Graph} {sem : Sem Ω V} {cv : Nat → V} {ω : Ω} {W : List (Nat × V)}
+    (hu : UniqueProducer g) (hov : OutputsAreValues g) {outs : List Nat}
+    (hargs : ArgsOK g (W.map (fun p => p.1)) outs)
+    (hden : ∀ o ∈ outs, ∃ v, Den g sem ω cv W o v) :
+    ∃ vals, run g sem ω cv W [] outs = .ok vals :=
+  run_complete hu hov hargs hden
 
 end
 
@@ -193,6 +252,7 @@ end
 def numSem : Sem Unit Nat := fun _ p args => some [args.sum + p]
 
 example : Setup chainGraph [(0, 5)] [(1, 7)] := setup_of_check (by decide) (by decide)
+example : OutputsAreValues chainGraph := outputsAreValues_of_check (by decide)
 example : DetSem chainGraph numSem := fun _ _ _ _ _ _ _ => rfl
 example : (partialRun chainGraph numSem () (fun _ => 100) [(0, 5)] [] [4]).toOption =
     some [(3, 110)] := by decide
